@@ -38,6 +38,8 @@ pub struct Cfg {
     pub from: usize,
     pub trace: bool,
     pub list: bool,
+    /// index of the catalogue replica (--reps); 0 for the base catalogue
+    pub rep: u64,
 }
 
 impl Cfg {
